@@ -411,6 +411,7 @@ var CommonAssumptions = []string{
 	"modelled stdlib functions (reflect layout data, sync.WaitGroup, context, time) behave as documented",
 	"user-supplied functions terminate, do not panic and do not retain or alias the channels/iterators handed to them",
 	"only non-test code of the six modules and the staged internal/... trees is analysed (optics/examples is not loaded)",
+	"the library's own assertion helpers (an unexported function whose whole body is a guard around one panic) never fire: the asserted condition is taken as a fact; the current tree has none",
 }
 
 // Finish applies floors and known findings, writes evidence + violation files, prints the verdict lines.
